@@ -603,10 +603,16 @@ void CoroCase(Ctx& ctx, int coro_kind, bool stopped_target) {
   }
   ctx.Class(racing != 0 ? "with-racing-source" : "no-racing-source");
   ctx.Observe(static_cast<u64>(w.obs.resumed.load(kRlx)));
-  ctx.Check(w.obs.bad_not_ready.load(kRlx) == 0, "resumed-before-complete", "C13",
+  bool any_shared = false;
+  for (auto& s : w.src) {
+    any_shared |= s.shared;
+  }
+  // a coroutine awaiting a SharedFuture is one of its observers (C06): exactly one resumption, only after fulfilment
+  const char* obs_props = any_shared ? "C13,C06" : "C13";
+  ctx.Check(w.obs.bad_not_ready.load(kRlx) == 0, "resumed-before-complete", obs_props,
             "%d resumptions found the awaited future not Ready / its producer's Set not begun",
             w.obs.bad_not_ready.load(kRlx));
-  ctx.Check(w.obs.bad_value.load(kRlx) == 0, "awaited-outcome", "C13",
+  ctx.Check(w.obs.bad_value.load(kRlx) == 0, "awaited-outcome", obs_props,
             "%d resumptions received a value/exception different from what was set (or a torn frame local)",
             w.obs.bad_value.load(kRlx));
   ctx.Check(w.obs.bad_tag.load(kRlx) == 0, "resumed-on-executor", "C13,C05",
@@ -663,7 +669,7 @@ void CoroCase(Ctx& ctx, int coro_kind, bool stopped_target) {
                 c, ef, st, code, s.code);
     }
   }
-  ctx.Check(w.obs.resumed.load(kRlx) == want_resumed, "resumed-exactly-once", "C13",
+  ctx.Check(w.obs.resumed.load(kRlx) == want_resumed, "resumed-exactly-once", obs_props,
             "%d resumptions counted after co_await expressions, expected %ld", w.obs.resumed.load(kRlx), want_resumed);
 }
 
